@@ -121,3 +121,7 @@ package composer
 //@ lemma c20-convex [C20]: forall c *constraint, a, b, d *Version :: trigger(c.matches(a), c.matches(d), a.Compare(b), b.Compare(d)) && c != nil && a != nil && b != nil && d != nil && cmpOp(c) && c.operator != "!=" && a.Compare(b) <= 0 && b.Compare(d) <= 0 && c.matches(a) && c.matches(d) ==> c.matches(b)
 // lifting to OR-of-AND ranges made of comparator constraints: versions that compare equal are treated alike
 //@ lemma c20-range-equal [C20] uses c20-equal: forall pr *VersionRange, v1, v2 *Version :: pr != nil && v1 != nil && v2 != nil && wfRange(pr) && (forall g int :: 0 <= g && g < len(pr.constraintGroups) ==> (forall i int :: 0 <= i && i < len(pr.constraintGroups[g]) ==> cmpOp(pr.constraintGroups[g][i]))) && v1.Compare(v2) == 0 ==> ((exists g int :: 0 <= g && g < len(pr.constraintGroups) && (forall i int :: 0 <= i && i < len(pr.constraintGroups[g]) ==> pr.constraintGroups[g][i].matches(v1))) == (exists g int :: 0 <= g && g < len(pr.constraintGroups) && (forall i int :: 0 <= i && i < len(pr.constraintGroups[g]) ==> pr.constraintGroups[g][i].matches(v2))))
+
+// ---- the registered name (the VERS evaluator and the CLI select behaviour by it)
+//@ func (*Ecosystem).Name
+//@   ensures result == "composer"   [C04 C15 C17]
